@@ -17,6 +17,8 @@ type Log<S> = Arc<Mutex<HashMap<u64, Vec<(usize, Vec<S>, S)>>>>;
 struct Rec<S> {
     id: u64,
     next_id: Arc<AtomicU64>,
+    /// calls 1..=echo_until answer the coordinate's CURRENT value (a sweep that reproduces the state), later ones fresh values
+    echo_until: u64,
     counter: u64,
     log: Log<S>,
     make: fn(u64, u64) -> S,
@@ -24,19 +26,19 @@ struct Rec<S> {
 impl<S> Clone for Rec<S> {
     fn clone(&self) -> Self {
         // a clone is a new instance (new id) that carries the state of the original (its call counter), like any stateful conditional
-        Rec { id: self.next_id.fetch_add(1, Ordering::SeqCst), next_id: self.next_id.clone(), counter: self.counter, log: self.log.clone(), make: self.make }
+        Rec { id: self.next_id.fetch_add(1, Ordering::SeqCst), next_id: self.next_id.clone(), echo_until: self.echo_until, counter: self.counter, log: self.log.clone(), make: self.make }
     }
 }
 impl<S: Clone> Conditional<S> for Rec<S> {
     fn sample(&mut self, index: usize, given: &[S]) -> S {
         self.counter += 1;
-        let v = (self.make)(self.id, self.counter);
+        let v = if self.counter <= self.echo_until { given[index].clone() } else { (self.make)(self.id, self.counter) };
         self.log.lock().unwrap().entry(self.id).or_default().push((index, given.to_vec(), v.clone()));
         v
     }
 }
 fn new_rec<S>(make: fn(u64, u64) -> S) -> Rec<S> {
-    Rec { id: 0, next_id: Arc::new(AtomicU64::new(1)), counter: 0, log: Arc::new(Mutex::new(HashMap::new())), make }
+    Rec { id: 0, next_id: Arc::new(AtomicU64::new(1)), echo_until: 0, counter: 0, log: Arc::new(Mutex::new(HashMap::new())), make }
 }
 
 fn mk_f64(id: u64, c: u64) -> f64 {
@@ -177,6 +179,55 @@ fn sweep_checks(ctx: &Ctx) {
                 check_log(ctx, "f64", &relocated, &lg, 1, chain.current_state(), &case);
                 ctx.evals(1);
                 ctx.transitions(2);
+            }
+            // conditionals whose first one or two sweeps reproduce the current state exactly (discrete models, rejected
+            // Metropolis-within-Gibbs updates): the following sweeps still ask every coordinate once and write the answers
+            if d <= 16 && steps <= 2 {
+                let init: Vec<i32> = (0..d).map(|k| k as i32 - 3).collect();
+                let case = json!({"kind": "sweep", "ty": "i32", "d": d, "answers": format!("first {steps} sweep(s) echo the current value, then fresh values")});
+                let mut rec = new_rec::<i32>(mk_i32);
+                rec.echo_until = (steps * d) as u64;
+                let log = rec.log.clone();
+                let r = catch(|| {
+                    let mut chain = GibbsMarkovChain::new(rec, &init);
+                    for _ in 0..steps + 2 {
+                        chain.step();
+                    }
+                    chain.current_state().clone()
+                });
+                ctx.evals(1);
+                ctx.transitions(steps as u64 + 2);
+                match r {
+                    Err(m) => ctx.violation(Violation::new("C05:panic", format!("step panicked: {m}"), case)),
+                    Ok(cur) => {
+                        let lg = log.lock().unwrap().get(&0).cloned().unwrap_or_default();
+                        check_log(ctx, "i32", &init, &lg, steps + 2, &cur, &case);
+                        ctx.outcome("state-reproducing sweeps checked", 1);
+                    }
+                }
+                // the same through the sampler (2 chains, run)
+                let initf: Vec<f64> = (0..d).map(|k| 0.5 * k as f64).collect();
+                let case = json!({"kind": "sweep", "ty": "f64", "d": d, "chains": 2, "answers": format!("first {steps} sweep(s) echo the current value, then fresh values")});
+                let mut rec = new_rec::<f64>(mk_f64);
+                rec.echo_until = (steps * d) as u64;
+                let log = rec.log.clone();
+                let r = catch(|| {
+                    let mut s = GibbsSampler::new(rec, vec![initf.clone(), initf.clone()]).set_seed(2);
+                    s.run(steps + 1, 1).map_err(|e| e.to_string())?;
+                    Ok::<_, String>(s.chains.iter().map(|c| (c.target.id, c.current_state.clone())).collect::<Vec<_>>())
+                });
+                ctx.evals(1);
+                ctx.transitions(2 * (steps as u64 + 2));
+                match r {
+                    Err(m) | Ok(Err(m)) => ctx.violation(Violation::new("C05:panic", format!("GibbsSampler::run failed: {m}"), case)),
+                    Ok(Ok(chains)) => {
+                        let g = log.lock().unwrap();
+                        for (id, cur) in chains {
+                            let lg = g.get(&id).cloned().unwrap_or_default();
+                            check_log(ctx, "f64", &initf, &lg, steps + 2, &cur, &case);
+                        }
+                    }
+                }
             }
             // conditionals whose answers include NaN, -0.0 and +-inf: the answer is written as it is (bitwise model)
             if d <= 16 {
@@ -595,7 +646,7 @@ fn kernel_checks(ctx: &Ctx) {
 }
 
 pub fn run(ctx: &Ctx) {
-    ctx.rule("(a) recording conditional (logs index + a copy of `given`, returns a fresh unique value) for EVERY dimension 1..64, 1..3 steps, initial states {zeros, ramp, NaN-containing, -0/inf} (f64), f32, i32, and 2..4 chains through GibbsSampler::run, against a list model; answers containing NaN / -0.0 / +-inf (d <= 16, chain and sampler); histories: the public current_state re-assigned (same length, longer, shorter) between two sweeps; two consecutive runs (run;run and run;run_progress) in which the recording conditional's own call counter must continue; (a') fault points: the conditional panics at its k-th call for every k < 2d, d <= 8 (16), the caller recovers and the chain must hold exactly the partially refreshed state; (b) explicit-state: for finite joints (all 255 weight tables over {0..3} on {0,1}^2; structured tables incl. zeros and a diagonal-heavy one on larger spaces) the exact kernel P is built by enumerating EVERY outcome sequence of one real sweep from every positive-probability state, then pi P = pi to 1e-12. states = start states x tables (+ sweep configurations); transitions = sweeps executed");
+    ctx.rule("(a) recording conditional (logs index + a copy of `given`, returns a fresh unique value) for EVERY dimension 1..64, 1..3 steps, initial states {zeros, ramp, NaN-containing, -0/inf} (f64), f32, i32, and 2..4 chains through GibbsSampler::run, against a list model; answers containing NaN / -0.0 / +-inf, and conditionals whose first sweeps reproduce the current state exactly (d <= 16, chain and sampler); histories: the public current_state re-assigned (same length, longer, shorter) between two sweeps; two consecutive runs (run;run and run;run_progress) in which the recording conditional's own call counter must continue; (a') fault points: the conditional panics at its k-th call for every k < 2d, d <= 8 (16), the caller recovers and the chain must hold exactly the partially refreshed state; (b) explicit-state: for finite joints (all 255 weight tables over {0..3} on {0,1}^2; structured tables incl. zeros and a diagonal-heavy one on larger spaces) the exact kernel P is built by enumerating EVERY outcome sequence of one real sweep from every positive-probability state, then pi P = pi to 1e-12. states = start states x tables (+ sweep configurations); transitions = sweeps executed");
     sweep_checks(ctx);
     fault_points(ctx);
     kernel_checks(ctx);
